@@ -31,4 +31,9 @@ SUBS.append(Sub("equal-size-scripts", run, kind="enum", enumerate=lambda tier: c
 SUBS.append(Sub("fill-level-scripts", run, kind="enum", enumerate=lambda tier: container.fill_level_cases(), shards=(8, 16),
                 rule="every table length 1..18, 20, 32 x fill levels {full-2, full-1, full} (all live blocks of distinct types: nine writable, seven undecodable) x 3 type orders x "
                      "scripts (add / set an absent type, replace / set / same-size-replace present ones, remove first then add); finite, enumerated", nontrivial_required=False))
+SUBS.append(Sub("histories-other-zone", run, kind="machine", machine=machine, budget=(60, 1500), shards=(2, 8), steps=(25, 50), tz=container.OTHER_ZONE,
+                rule="the same histories with the process in a zone that is not UTC and has daylight saving time (POSIX TZ CET-1CEST): stored dates are instants, "
+                     "also those in the hour that is repeated when summer time ends"))
+SUBS.append(Sub("equal-size-scripts-other-zone", run, kind="enum", enumerate=lambda tier: container.scripted_cases(), shards=(8, 16), tz=container.OTHER_ZONE,
+                rule="the enumerated scripts again in that zone (the blocks' dates lie in both passes through the repeated hour)", nontrivial_required=False))
 TIME_BUDGET = {"quick": 150, "thorough": 1500}
